@@ -51,9 +51,13 @@ def symbolic_int_group(world, ev):
     p, q, g = Sym("p", "int"), Sym("q", "int"), Sym("g", "int")
     outs = ev.run(icls, [], [("p", p), ("q", q), ("g", g)], st)
     r = session.rets(outs)
-    if len(r) != 1:
+    if not r or len(r) > 16:
         raise AnalysisError("%s(p, q, g) has %d normal construction paths on symbolic constants" % (icls.name, len(r)))
+    # several paths arise only from history-dependent shared state (caches); the fullest one is used
+    # for the per-method rules, all of them are kept for the constructor obligations (C18)
+    r.sort(key=lambda o: -len(o.state.pc))
     r[0].state.ctor_pc = list(r[0].state.pc)
+    r[0].state.all_ctor_pcs = [list(o.state.pc) for o in r]
     r[0].state.pc = []       # constructor assertions are facts about the group, not about later calls
     return r[0].state, r[0].value, {"p": p, "q": q, "g": g}
 
